@@ -185,6 +185,14 @@ def check(spec, ctx):
     again = [s.uuid for s in segment_clip(clip, **kw)]
     if again != ids:
         ctx.fail("segment identifiers differ between two identical calls", spec, None, None, kind="uuid_deterministic")
+    if spec["cls"] == "grid" and segs:
+        # the same bounds reached through other parameters (a truncated last window vs a complete window of that length)
+        last = segs[-1]
+        d2 = last.end_time - last.start_time
+        if d2 > 0:
+            twin = [x for x in segment_clip(clip, duration=d2, hop=eff_hop, include_incomplete=False) if (x.start_time, x.end_time) == (last.start_time, last.end_time)]
+            if twin and twin[0].uuid != last.uuid:
+                ctx.fail(f"segment ({last.start_time}, {last.end_time}) of the same parent gets different identifiers from two calls (duration {dur} vs {d2}): the identifier is not a function of parent and bounds", spec, str(twin[0].uuid), str(last.uuid), kind="uuid_function_of_bounds")
     if segs:
         other = data.Clip(uuid=str(uuidlib.UUID(int=spec["salt"] + 2**40)), recording=rec, start_time=clip.start_time, end_time=clip.end_time)
         oids = [s.uuid for s in segment_clip(other, **kw)]
